@@ -584,6 +584,29 @@ class Stats(dict):
         d[ks[-1]] = d.get(ks[-1], 0) + 1
 
 
+def fix_axioms_header(ctx, ok, ax):
+    """vlib.core._assumptions also matches the header line `Axioms:` that Print Assumptions prints before a non-empty axiom list and
+    reports the word `Axioms` as a non-whitelisted axiom (the binary64 theorems depend on the stdlib real-number axioms). Drop
+    exactly that artefact — every real axiom name is still checked against the whitelist — and run the hygiene gate that
+    coq_build skipped. (Same workaround as props/C07.py; reported to the lead.)"""
+    from vlib.core import AXIOM_WHITELIST, AXIOM_PREFIX_WHITELIST
+    if ok or 'Axioms' not in ax:
+        return ok
+    real = [a for a in ax if a != 'Axioms']
+    bad = [a for a in real if not (a in AXIOM_WHITELIST or a.startswith(AXIOM_PREFIX_WHITELIST))]
+    mine = [b for b in ctx.broken if b.get('kind') == 'proof' and b.get('name') == 'Print Assumptions']
+    if bad or len(mine) != 1 or "['Axioms']" not in mine[0].get('detail', ''):
+        return ok
+    ctx.broken.remove(mine[0])
+    ctx.cov['trusted_base'] = sorted(set(ctx.cov['trusted_base']) - {'Axioms'})
+    g = ctx.hygiene()
+    if g:
+        ctx.broken.append(dict(kind='proof', name='hygiene gate', detail=g))
+        return False
+    ctx.log('coq ok (axioms: %s)' % sorted(real))
+    return True
+
+
 def parse_tris(s):
     """'T x y x y x y ; ...' -> list of token lists, or None on a malformed record"""
     body = s.strip()
@@ -618,18 +641,21 @@ def run(ctx):
     ok_build = ctx.build_repo('rel')
     tr = ctx.translate(['TP_isInCircleRobust', 'TP_isInCircleNonRobust', 'TP_triArea'])
     ok_coq, ax = ctx.coq_build('Properties_C16')
+    ok_coq = fix_axioms_header(ctx, ok_coq, ax)
     drv = ctx.ocaml_driver('C16')
     hexe = os.path.join(BUILD, 'bin', 'c16')
     if not ok_build or not ctx.cxx(os.path.join(ROOT, 'harness/c16.cpp'), hexe, 'rel') or not drv:
         return
     st = Stats()
     state = dict(ctx=ctx, drv=drv, hexe=hexe, st=st, nviol=0)
+    if ctx.replay:
+        return do_replay(state, ctx.replay)
     seeds = [ctx.seed] if quick else [ctx.seed + i for i in range(4)]
     for si, sd in enumerate(seeds):
         rng = random.Random(sd * 7919 + 16)
         do_predicate(state, rng, 2500 if quick else 30000)
         do_delaunay(state, rng, 700 if quick else 9000, corpus=(si == 0))
-        do_constrained(state, rng, 400 if quick else 5000)
+        do_constrained(state, rng, 400 if quick else 5000, corpus=(si == 0))
         do_voronoi(state, rng, 300 if quick else 3500)
         if state['nviol'] > 8:
             break
@@ -639,12 +665,41 @@ def run(ctx):
     need = [('delaunay', 'family', 'concentric'), ('delaunay', 'family', 'collinear'), ('delaunay', 'tolerance', 'merge'),
             ('delaunay', 'tolerance', 'sub'), ('constrained', 'holes', 'touching'), ('voronoi', 'env', 'user'), ('voronoi', 'ordered', 'yes'),
             ('predicate', 'model_answer', '1'), ('predicate', 'model_answer', '0'), ('predicate', 'model_answer', '2')]
-    for path in need:
+    for path in ([] if state['nviol'] > 8 else need):      # a run cut short by failures has not drawn everything
         d = st
         for k in path:
             d = d.get(k, {}) if isinstance(d, dict) else {}
         if not d:
             ctx.broken.append(dict(kind='generator', name='distribution ' + '/'.join(path), detail='the generator never produced this class'))
+
+
+def do_replay(S, path):
+    """./check C16 --replay <file>: re-run the input stored in a replay file written by this check"""
+    import json
+    ctx = S['ctx']
+    d = json.load(open(path))
+    tup = lambda l: [tuple(p) for p in l]
+    if 'shrunk_polygons' in d or 'polygons' in d:
+        polys = [[tup(r) for r in rings] for rings in (d.get('shrunk_polygons') or d['polygons'])]
+        r = eval_constrained(S, [(d.get('family', 'replay'), polys, d.get('scale_exponent', 0))])[0]
+    elif str(d.get('call', '')).startswith('GEOSVoronoi'):
+        r = eval_voronoi(S, [(d.get('family', 'replay'), tup(d.get('shrunk_sites') or d['sites']), d.get('tolerance', 0), d.get('scale_exponent', 0),
+                              d.get('flags', 0), tuple(d['env']) if d.get('env') else None, d.get('geometry', 'M'))])[0]
+    elif 'sites' in d:
+        tol = d.get('tolerance_grid_units', 0)
+        r = eval_delaunay(S, [(d.get('family', 'replay'), tup(d.get('shrunk_sites') or d['sites']), tol, 'zero' if tol == 0 else 'merge',
+                               d.get('scale_exponent', 0), d.get('geometry', 'M'))])[0]
+    else:
+        ctx.log('replay file has no input of this check'); return
+    ctx.count(('replay', r['harness_line']), True)
+    ctx.log('replay: %s | implementation: %s | checker: %s' % (r['verdict'], r['impl'][:300], r['driver'][:300]))
+    if r['verdict'] == 'VIOLATION':
+        S['nviol'] += 1
+        ctx.violation('replay', dict(replayed=path, harness_line=r['harness_line'], implementation=r['impl'][:4000], checker=r['driver'], why=r['why'],
+                                     replay='./check C16 --replay %s' % path), msg=r['why'])
+    elif r['verdict'].startswith('KNOWN'):
+        ent = ctx.known_match(lambda f: f.get('id') == 'C16-' + r['verdict'].split('-')[1])
+        if ent: ctx.known_hit(ent)
 
 
 # ------------------------------------------------------------------------------------------------ predicate (mode P)
@@ -664,9 +719,12 @@ def do_predicate(S, rng, n):
         if nontrivial: st.inc('predicate', 'band_changes_answer')
         if len(it) < 2 or len(mt) < 2 or it[0] != mt[0] or it[1] != mt[1]:
             S['nviol'] += 1
+            st.inc('predicate', 'disagreements')
             # a disagreement of the binary64 model with the compiled predicate: lift it to a site set where it decides a flip
-            ctx.broken.append(dict(kind='correspondence', name='isInCircleRobust model vs TrianglePredicate',
-                                   detail='input %s\nmodel (robust nonrobust det deterror): %s\nimplementation (robust nonrobust normalized): %s' % (line, m, i)))
+            if not any(b.get('name') == 'isInCircleRobust model vs TrianglePredicate' for b in ctx.broken):
+                ctx.broken.append(dict(kind='correspondence', name='isInCircleRobust model vs TrianglePredicate',
+                                       detail='input %s\nmodel (robust nonrobust det deterror): %s\nimplementation (robust nonrobust normalized): %s\nre-run: echo "%s" | %s ; echo "%s" | %s'
+                                              % (line, m, i, line, S['hexe'], line, S['drv'])))
             lift_predicate_failure(S, vals, it, mt)
             if S['nviol'] > 8:
                 return
@@ -742,7 +800,7 @@ CLAUSES_D = ('c0 no triangle, c1 degenerate triangle, c2 corner not a site, c3 s
 def shrink_sites(S, case, same):
     """delete sites while a failure of the same class persists"""
     fam, pts, tol, regime, k, gt = case
-    cur = list(pts); budget = 120
+    cur = list(pts); budget = 60
     step = max(1, len(cur) // 2)
     while step >= 1 and budget > 0:
         i = 0
@@ -773,7 +831,7 @@ def report_delaunay(S, r):
                   dict(call='GEOSDelaunayTriangulation_r (triangles, then edges only)', family=fam, scale_exponent=k, tolerance_grid_units=tol, geometry=gt,
                        sites=pts, shrunk_sites=small, implementation=rr['impl'], checker=rr['driver'], clauses=CLAUSES_D,
                        expected='every clause of DelaunaySpec (Properties_C16.C16_check_delaunay_sound) holds',
-                       replay='echo "%s" | %s   # then: echo "<driver line>" | %s' % (rr['harness_line'], S['hexe'], S['drv']),
+                       replay='echo "%s" | %s   # then: echo "<driver_line>" | %s ; or ./check C16 --replay <this file>' % (rr['harness_line'], S['hexe'], S['drv']),
                        driver_line=rr['driver_line'], why=r['why']), msg=r['why'])
 
 
@@ -877,7 +935,7 @@ def eval_constrained(S, cases):
 def shrink_polys(S, case, same):
     """drop polygons, holes, then single vertices while the same failure persists on a still-valid input"""
     fam, polys, k = case
-    cur = [list(map(list, rings)) for rings in polys]; budget = 150
+    cur = [list(map(list, rings)) for rings in polys]; budget = 80
     def attempt(cand):
         nonlocal cur, budget
         budget -= 1
@@ -923,9 +981,17 @@ def report_constrained(S, r):
                        replay='echo "%s" | %s' % (rr['harness_line'], S['hexe']), driver_line=rr['driver_line'], why=r['why']), msg=r['why'])
 
 
-def do_constrained(S, rng, n):
+def do_constrained(S, rng, n, corpus=False):
     ctx, st = S['ctx'], S['st']
     cases = []
+    cp = os.path.join(ROOT, 'gen/corpus/C16.txt')
+    if corpus and os.path.exists(cp):
+        for l in open(cp):
+            l = l.strip()
+            if l.startswith('C '):
+                k, rest = l[2:].split(None, 1)
+                polys = [[[(int(w[i]), int(w[i + 1])) for i in range(0, len(w), 2)] for w in (r.split() for r in ps.split(';')) if w] for ps in rest.split('/')]
+                cases.append(('corpus', polys, int(k)))
     for _ in range(n):
         k = rng.choice([0, 0, 0, 2, -5, 30, -30])
         if rng.random() < 0.12:     # several polygons side by side (MultiPolygon), possibly touching at a vertex
@@ -1017,7 +1083,7 @@ def eval_voronoi(S, cases, ulps=ULPS):
 def shrink_voronoi(S, r):
     fam, pts, tol, k, flags, env, gt = r['case']
     v0, c0 = r['verdict'], r.get('codes')
-    cur = list(pts); budget = 100; step = max(1, len(cur) // 2)
+    cur = list(pts); budget = 60; step = max(1, len(cur) // 2)
     try:
         while step >= 1 and budget > 0:
             i = 0
